@@ -202,6 +202,29 @@ def workarray_fails(case):
     return None
 
 
+def workarray_results_fail(case):
+    """the dependent variable IS a work array wrapped by hand (F(x) = (x0 x1, x1 x2, x2 x0) written entry by entry): what a call
+    returned stays what it was when later calls are made (results are values, not windows into the graph's storage)"""
+    pts = [np.array(p_) for p_ in case['pts']]
+    cg = algopy.CGraph()
+    fx = algopy.Function(UTPM(np.array(case['rec']).reshape(1, 1, 3)))
+    fy = algopy.Function(UTPM(np.zeros((1, 1, 3))))
+    for i in range(3):
+        fy[i] = fx[i] * fx[(i + 1) % 3]
+    cg.trace_off()
+    cg.independentFunctionList = [fx]
+    cg.dependentFunctionList = [fy]
+    F = lambda p_: np.array([p_[0] * p_[1], p_[1] * p_[2], p_[2] * p_[0]])
+    try:
+        held = [cg.function([UTPM(p_.reshape(1, 1, 3).copy())])[0] for p_ in pts]
+        for k, (h, p_) in enumerate(zip(held, pts)):
+            if not close(np.asarray(h.data).ravel(), F(p_), 1e-12):
+                return 'workarray-result-changed: the value returned by call %d of cg.function changed when later calls were made' % (k + 1)
+    except Exception as ex:
+        return 'workarray-results-exception: %s' % (type(ex).__name__ + ':' + str(ex)[:60])
+    return None
+
+
 def workarray_model_mismatch(ctx, case):
     """the sequence of values of a graph with a hand-wrapped accumulator (cells: 0 = acc, 1 = x, 2 = x*x; writes acc += x,
     acc += x*x; output acc) over a history of evaluations, against the executable model `accHistory` with the undo step"""
@@ -361,6 +384,8 @@ def replay_case(ctx, case):
         return inplace_program_fails(case['inplace_program'], case['pt'], case['v'])
     if case.get('op') == 'workarray':
         return workarray_fails(case)
+    if case.get('op') == 'workarray-results':
+        return workarray_results_fail(case)
     if case.get('op') == 'workarray-model':
         return workarray_model_mismatch(ctx, case)
     return history_fails(case)
@@ -385,6 +410,13 @@ def run(ctx):
             f = workarray_fails(case)
             if f:
                 ctx.report(case, 'failure', f)
+    for i in range(3):
+        case = {'op': 'workarray-results', 'rec': rand_coeffs(rng, (3,), -2, 2), 'pts': [rand_coeffs(rng, (3,), -2, 2) for _ in range(3)]}
+        ctx.evaluations += 1
+        ctx.count('work-array-results-kept')
+        f = workarray_results_fail(case)
+        if f:
+            ctx.report(case, 'failure', f)
     for i in range(6 if ctx.tier == 'quick' else 60):
         case = {'op': 'workarray-model', 'rec': rng.choice([0.5, -1.5, 2.0]), 'calls': [rng.choice([0.5, -0.25, 1.5, 2.0, -1.0]) for _ in range(rng.randint(2, 5))]}
         ctx.evaluations += 1
